@@ -303,11 +303,13 @@ pub fn line(ops: &[Op], res: &[String], writes: &[Vec<u8>]) -> String {
 }
 
 fn gen_msg(rng: &mut Rng, call_only: bool, maxlen: usize) -> Msg {
-    let n = match rng.below(6) {
+    let n = match rng.below(8) {
         0 => rng.below(8),
         1 => rng.range(180, 270),
         2 => rng.range(0, 600),
         3 => 256 * rng.range(1, 4) - rng.range(20, 60),
+        // a message of more than 16 growth steps (4 KiB) behind, between or in front of small queued ones
+        4 if maxlen >= 600 => rng.range(4100, 9000),
         _ => rng.range(0, maxlen),
     };
     let k = if call_only { rng.below(3) } else { rng.below(10) };
